@@ -266,40 +266,36 @@ func (c *Classifier) Normalize(in []byte) []byte {
 		panic("should not be reachable, since bytes.NewReader().Read() should never fail")
 	}
 
+	if len(doc.Tokens) == 0 {
+		return nil
+	}
+
 	var buf bytes.Buffer
 
-	switch len(doc.Tokens) {
-	case 0:
-		return nil
-	case 1:
-		buf.WriteString(c.dict.getWord(doc.Tokens[0].ID))
-		return buf.Bytes()
-	}
-
-	prevLine := 1
-	// A leading EOL token only advances the line count, it is not a word.
-	if first := c.dict.getWord(doc.Tokens[0].ID); first != eol {
-		buf.WriteString(first)
-	}
-	for _, t := range doc.Tokens[1:] {
-		// Only write out an EOL token that incremented the line
-		if t.Line == prevLine+1 {
+	// line is the line being written; first is true until a word is written on it.
+	line, first := 1, true
+	for _, t := range doc.Tokens {
+		// Write one EOL for every line the token advanced. EOL tokens only
+		// carry line numbers, and some line breaks leave none (a notice line
+		// that ends in a hyphen), so the line number itself is what counts.
+		for ; line < t.Line; line++ {
 			buf.WriteString(eol)
+			first = true
 		}
 
 		// Only write tokens that aren't EOL
 		txt := c.dict.getWord(t.ID)
-
-		if txt != eol {
-			// Only put a space between tokens if the previous token was on the same
-			// line. This prevents spaces after an EOL
-			if t.Line == prevLine {
-				buf.WriteString(" ")
-			}
-			buf.WriteString(txt)
+		if txt == eol {
+			continue
 		}
 
-		prevLine = t.Line
+		// Only put a space between tokens of the same line. This prevents
+		// spaces after an EOL
+		if !first {
+			buf.WriteString(" ")
+		}
+		buf.WriteString(txt)
+		first = false
 	}
 	return buf.Bytes()
 }
